@@ -15,7 +15,7 @@ warnings.simplefilter("ignore")
 from pams.simulator import Simulator  # noqa: E402
 
 ID = "C17"
-RULE = ("(sim) Hypothesis generates 2-4 component markets with unequal outstandingShares (1..10^6), an index market over 2..all "
+RULE = ("(sim) Hypothesis generates 2-4 component markets with unequal outstandingShares (1..10^6, and values whose sum exceeds 2^63), an index market over 2..all "
         "of them, volatile fundamentals, fundamental shocks, and scripted agents trading components and index. At every "
         "before-step hook, every step-end record and at the end, for every t <= now: get_index(t) == get_market_index(t) == "
         "compute_market_index(t) == sum(s_i p_i(t)) / sum(s_i) (math.fsum reference, rel 1e-12); at the first observation "
@@ -35,7 +35,7 @@ def cases(draw, tier):
     cfg = {"simulation": {"markets": list(names) + ["IDX"], "agents": ["A0"], "sessions": []}}
     for n in names:
         cfg[n] = {"class": "Market", "tickSize": draw(st.sampled_from([1.0, 0.5, 0.01])), "marketPrice": draw(st.sampled_from([100.0, 250.0, 999.5, 13.0])),
-                  "outstandingShares": draw(st.one_of(st.sampled_from([1, 7, 100, 12345, 10**6]), st.integers(1, 10**6))),
+                  "outstandingShares": draw(st.one_of(st.sampled_from([1, 7, 100, 12345, 10**6, 10**12, 6 * 10**18, 4 * 10**18, 2**63]), st.integers(1, 10**6))),
                   "fundamentalVolatility": draw(st.sampled_from([0.0, 0.01, 0.05])), "fundamentalDrift": draw(st.sampled_from([0.0, 0.002]))}
     k = draw(st.integers(2, nm))
     comps = draw(st.permutations(names))[:k]
